@@ -166,7 +166,7 @@ func checkCase(c Case) fw.Outcome {
 		}
 		return false
 	}
-	o := canon.Opts{MaskRunAsParent: true, MaskModuleOf: mask, NoModelAttrs: true, XPathListing: true}
+	o := canon.Opts{MaskRunAsParent: true, MaskModuleOf: mask, NoModelAttrs: true, XPathListing: true, ChoiceNS: true}
 	gd, id := canon.Dump(gres.MS, o), canon.Dump(ires.MS, o)
 	if gd != id {
 		out.Violation = fmt.Sprintf("schema of the grouping form differs from the inlined form\n%s\n--- grouping form\n%s\n--- inlined form\n%s", firstDiff(gd, id), gsrc, isrc)
